@@ -307,12 +307,14 @@ def q_aes_dispatch(env, name=None):
     def native(algo, decrypt):
         import hashlib
         key = bytes(range(1, 1 + klen[algo]))
-        iv = bytes(range(0xf0, 0x100))
-        msg = bytes(range(40))
-        req = {"tx": {"version": 1, "locktime": 0, "inputs": [], "outputs": []}, "ops": [{"op": "aes_check", "algo": algo, "key": key.hex(), "iv": iv.hex(), "message": msg.hex()}]}
-        nat = {p: C.Native.run(req, p)[0] for p in ("debug", "release")}
-        exp = {"matches_reference": True, "roundtrip": True}
-        return {"request": req, "op_index": 0, "expected": exp, "native": nat, "reproduced": any(v.get("ok") != exp for v in nat.values())}
+        iv = bytes([0] * 8 + [0xff] * 7 + [0xfe])       # low counter bytes about to carry
+        msgs = [bytes(range(40)), b"", bytes(range(16)), bytes((i * 7) % 256 for i in range(9000))]
+        req = {"tx": {"version": 1, "locktime": 0, "inputs": [], "outputs": []}, "ops": [{"op": "aes_check", "algo": algo, "key": key.hex(), "iv": iv.hex(), "message": m.hex()} for m in msgs]}
+        nat = {p: C.Native.run(req, p) for p in ("debug", "release")}
+        exp = {"matches_reference": True, "roundtrip": True, "corrupted_ciphertexts_agree_with_reference": True}
+        slim = {p: [o.get("ok", o) for o in v] for p, v in nat.items()}
+        req["ops"][3]["message"] = req["ops"][3]["message"][:64] + "...(9000 bytes: (7*i) mod 256)"
+        return {"request": req, "op_index": 0, "expected": exp, "native": slim, "reproduced": any(o != exp for v in slim.values() for o in v)}
 
     for direction in ("encrypt_impl", "decrypt_impl"):
         f = env.fn(f"encryption::AES::{direction}")
